@@ -43,7 +43,9 @@ def run_spec(spec: dict, keep_events: bool = False, watchdog_s: float | None = N
             offline = model.check_history(run.events, run.table, run.thread_inherits)
         except Exception as exc:  # the offline checker itself failed: machinery, not furax
             status = 'harness'
-            run.harness_error = f'offline checker crashed: {exc!r}'
+            import traceback
+
+            run.harness_error = 'offline checker crashed: ' + ''.join(traceback.format_exception(type(exc), exc, exc.__traceback__))[-1500:]
         if status != 'harness':
             if offline is not None and offline[0] == 'H' and violation is None:
                 status = 'harness'
